@@ -476,7 +476,11 @@ def writeJSON (s : W) (enc : Bytes) (dnPrev : List Bytes := []) (fullPrev : Byte
     (match e1 with | some e => some (if isFlateHandle s h then .any else e) | none => e2, s)
 
 /-- the send half of WritePreparedMessage: one `Conn.write` of the rendered image -/
-def writePreparedImage (s : W) (t : Int) (image : Bytes) : Option WErr × W :=
+def writePreparedImage (s : W) (t : Int) (image : Bytes) (dnPrev : List Bytes := []) (fullPrev : Bytes := []) :
+    Option WErr × W :=
+  -- like NextWriter / WriteMessage, a data message first closes the writer the application left open
+  -- (conn.go WritePreparedMessage, repair of finding F8); control messages may interleave
+  let s := if isData t then closePrev s dnPrev fullPrev else s
   connWrite s t s.deadline image []
 
 def setWriteDeadline (s : W) (d : Int) : W := { s with deadline := d }
@@ -498,7 +502,7 @@ inductive Op
   | writeMessage (t : Int) (data : Bytes) (dnp : List Bytes) (fullp : Bytes) (dn : List Bytes) (full : Bytes)
   | writeJSON (enc : Bytes) (dnp : List Bytes) (fullp : Bytes) (dn : List Bytes) (full : Bytes)
   | writeControl (t : Int) (data : Bytes) (d : Int)
-  | writePrepared (t : Int) (image : Bytes)
+  | writePrepared (t : Int) (image : Bytes) (dnp : List Bytes) (fullp : Bytes)
   | setWriteDeadline (d : Int)
   | enableWriteCompression (b : Bool)
   | setCompressionLevel (l : Int)
@@ -523,7 +527,7 @@ def applyOp (s : W) : Op → Option WErr × W
   | .writeMessage t data dnp fullp dn full => writeMessage s t data dnp fullp dn full
   | .writeJSON enc dnp fullp dn full => writeJSON s enc dnp fullp dn full
   | .writeControl t data d => writeControl s t data d
-  | .writePrepared t image => writePreparedImage s t image
+  | .writePrepared t image dnp fullp => writePreparedImage s t image dnp fullp
   | .setWriteDeadline d => (none, setWriteDeadline s d)
   | .enableWriteCompression b => (none, enableWriteCompression s b)
   | .setCompressionLevel l => setCompressionLevel s l
